@@ -10,6 +10,8 @@ import (
 	"time"
 
 	"github.com/rulego/streamsql"
+	"github.com/rulego/streamsql/types"
+	"github.com/rulego/streamsql/window"
 )
 
 // SQL-level stage of the event-time window properties (C01, C08, C10): the whole pipeline
@@ -42,7 +44,108 @@ func sqlWindowClause(c Case) string {
 	return ""
 }
 
+// execWinAPISessionOnce (cfg `winapi 1`, kind sqlsession): the same rows, sentinel and observables, but through the window
+// package's own API — NewSessionWindow, SetCallback, Start, Add — with the window's real goroutine; with cfg `reuse 1` the
+// window object is first started, Reset() and started again (a window that has been reset is as new).
+func execWinAPISessionOnce(c Case) ([][]string, bool) {
+	ms := time.Millisecond
+	wc := types.WindowConfig{Type: window.TypeSession, Params: []any{time.Duration(cfgInt(c, "timeout", 1000)) * ms},
+		TsProp: "ts", TimeUnit: ms, TimeCharacteristic: types.EventTime,
+		MaxOutOfOrderness: time.Duration(cfgInt(c, "ooo", 0)) * ms, AllowedLateness: time.Duration(cfgInt(c, "late", 0)) * ms,
+		GroupByKeys: []string{"k"}}
+	w, err := window.NewSessionWindow(wc)
+	if err != nil {
+		return [][]string{{"error", hx(err.Error())}}, true
+	}
+	defer w.Stop()
+	var mu sync.Mutex
+	var lines [][]string
+	batchNo := 0
+	sentinel := ""
+	seen := make(chan struct{}, 1)
+	w.SetCallback(func(rows []types.Row) {
+		if len(rows) == 0 || rows[0].Slot == nil {
+			return
+		}
+		mu.Lock()
+		defer mu.Unlock()
+		batchNo++
+		k := ""
+		if m, ok := rows[0].Data.(map[string]interface{}); ok {
+			k = fmt.Sprint(m["k"])
+		}
+		var sum int64
+		var ids []string
+		for _, r := range rows {
+			if m, ok := r.Data.(map[string]interface{}); ok {
+				id, _ := toI64(m["id"])
+				sum += id
+				ids = append(ids, itoa(id))
+			}
+		}
+		line := []string{"res", itoa(rows[0].Slot.Start.UnixNano()), itoa(rows[0].Slot.End.UnixNano()), hx(k), strconv.Itoa(len(ids)), itoa(sum), "t", "b" + strconv.Itoa(batchNo)}
+		for _, id := range ids {
+			line = append(line, id)
+			if id == sentinel {
+				select {
+				case seen <- struct{}{}:
+				default:
+				}
+			}
+		}
+		lines = append(lines, line)
+	})
+	go func() { // nobody reads the output channel in this set-up; keep it from filling
+		for range w.OutputChan() {
+		}
+	}()
+	w.Start()
+	if cfgInt(c, "reuse", 0) == 1 {
+		w.Reset()
+		w.Start()
+	}
+	var rowOps [][]string
+	for _, op := range c.Ops {
+		if op[0] == "row" {
+			rowOps = append(rowOps, op)
+		}
+	}
+	if len(rowOps) >= 2 {
+		mu.Lock()
+		sentinel = rowOps[len(rowOps)-2][1]
+		mu.Unlock()
+	}
+	for _, op := range c.Ops {
+		if op[0] != "row" && op[0] != "late" {
+			continue
+		}
+		id, _ := strconv.ParseInt(op[1], 10, 64)
+		r := map[string]interface{}{"id": id, "k": unhx(op[3])}
+		if op[2] != "none" {
+			t, _ := strconv.ParseInt(op[2], 10, 64)
+			r["ts"] = t
+		}
+		w.Add(r)
+	}
+	ok := true
+	select {
+	case <-seen:
+	case <-time.After(3 * time.Second):
+		ok = false
+	}
+	mu.Lock()
+	defer mu.Unlock()
+	out := append([][]string(nil), lines...)
+	if !ok {
+		out = append(out, []string{"sentinel-lost"})
+	}
+	return out, ok
+}
+
 func execSQLWindowOnce(c Case) ([][]string, bool) {
+	if cfgInt(c, "winapi", 0) == 1 && cfgStr(c, "kind", "") == "sqlsession" {
+		return execWinAPISessionOnce(c)
+	}
 	sql := "SELECT k, count(*) AS c, sum(id) AS s, collect(id) AS ids, window_start() AS ws, window_end() AS we FROM stream GROUP BY k, " +
 		sqlWindowClause(c) + fmt.Sprintf(" WITH (TIMESTAMP='ts', TIMEUNIT='ms', MAXOUTOFORDERNESS='%s'", sqlDur(c, cfgInt(c, "ooo", 0)))
 	if l := cfgInt(c, "late", 0); l > 0 {
